@@ -116,7 +116,7 @@ func c04Signers() []c04Signer {
 			ca := c04CA(kind)
 			return ca, []*world.Ident{ca, p.Root}, nil, nil // signer = the leaf itself (a leaf without keyUsage and basicConstraints)
 		}},
-		{"end-entity-alone-in-its-chain-names-itself", false, func(kind string) (*world.Ident, []*world.Ident, []*x509.Certificate, *world.Ident) {
+		{"end-entity-without-keyusage-alone-in-its-chain-names-itself", false, func(kind string) (*world.Ident, []*world.Ident, []*x509.Certificate, *world.Ident) {
 			// the client certificate is the only certificate of the presented chain (a pinned trust anchor) and signs a
 			// CRL issued in its own name: an end-entity is never a CRL signer
 			ca := c04CA(kind)
@@ -187,6 +187,9 @@ func c04Doc(c c04Case) (doc []byte, leaf *world.Ident, chain [][]*x509.Certifica
 	lo := world.CertOpt{CN: "c04 client", Serial: big.NewInt(101), KeyKind: kind, KeyIdx: 5, CDP: []string{c04URL}}
 	if strings.Contains(sg.Name, "no-keyusage-no-basicconstraints") {
 		lo.NoKeyUsage, lo.NoBC = true, true
+	}
+	if strings.Contains(sg.Name, "names-itself") {
+		lo.NoKeyUsage = true // basicConstraints cA=FALSE is all that says "not a CRL signer"
 	}
 	leaf = world.Issue(issuer, lo)
 	if signer == nil {
